@@ -2,6 +2,7 @@ package kernel
 
 import (
 	"encoding/json"
+	mathrand "math/rand"
 	"fmt"
 	"os"
 	"runtime"
@@ -10,6 +11,7 @@ import (
 	"strconv"
 	"strings"
 	"testing"
+	"testing/cryptotest"
 	"testing/synctest"
 	"time"
 )
@@ -18,6 +20,9 @@ import (
 type Engine struct {
 	// Name is the engine name.
 	Name string
+
+	// PinCrypto makes crypto/rand a deterministic function of the run.
+	PinCrypto bool
 
 	// Run executes one run for property prop on sim s inside the bubble.  cfg
 	// is a free-form configuration string (sub-batch selector).
@@ -91,6 +96,14 @@ func runOne(t *testing.T, e *Engine, prop, cfg string, tape *Tape) (s *Sim) {
 			s.Failf("harness-panic", "panic outside tasks", "%v", r)
 		}
 	}()
+
+	if e.PinCrypto {
+		cryptotest.SetGlobalRandom(t, tape.CryptoSeed)
+
+		// The global math/rand source too (response padding lengths); needs
+		// `//go:debug randseednop=0` in the engine's test package.
+		mathrand.Seed(int64(tape.CryptoSeed >> 1)) //nolint:staticcheck
+	}
 
 	synctest.Test(t, func(_ *testing.T) {
 		s.start = time.Now()
@@ -273,7 +286,9 @@ func WorkerMain(t *testing.T, e *Engine) {
 		}
 	case "replay":
 		tf := readTapeFile(t)
-		s := runOne(t, e, prop, cfg, NewReplayTape(tf.Tape))
+		rt := NewReplayTape(tf.Tape)
+		rt.CryptoSeed = CryptoSeedFor(tf.Seed, tf.Idx)
+		s := runOne(t, e, prop, cfg, rt)
 		account(s)
 		r := report(tf.Idx, s, true)
 		if s.Failed() != nil {
@@ -287,8 +302,11 @@ func WorkerMain(t *testing.T, e *Engine) {
 			t.Fatal("shrink: tape file has no violation")
 		}
 
-		best, replays := shrink(t, e, prop, cfg, tf.Tape, tf.Violation.Class, budget)
-		s := runOne(t, e, prop, cfg, NewReplayTape(best))
+		cs := CryptoSeedFor(tf.Seed, tf.Idx)
+		best, replays := shrink(t, e, prop, cfg, tf.Tape, tf.Violation.Class, budget, cs)
+		bt := NewReplayTape(best)
+		bt.CryptoSeed = cs
+		s := runOne(t, e, prop, cfg, bt)
 		account(s)
 		out.ShrunkFrom = len(tf.Tape)
 		out.Replays = replays
@@ -346,6 +364,7 @@ func shrink(
 	tape []uint32,
 	class string,
 	budget time.Duration,
+	cryptoSeed uint64,
 ) (best []uint32, replays int) {
 	if budget == 0 {
 		budget = 60 * time.Second
@@ -360,7 +379,9 @@ func shrink(
 		}
 
 		replays++
-		s := runOne(t, e, prop, cfg, NewReplayTape(cand))
+		ct := NewReplayTape(cand)
+		ct.CryptoSeed = cryptoSeed
+		s := runOne(t, e, prop, cfg, ct)
 		v := s.Failed()
 		if v == nil || v.Class != class {
 			return false, nil
